@@ -27,7 +27,7 @@ from pynenc.orchestrator.atomic_service import ActiveRunnerInfo
 from pynenc.util.sqlite_utils import TableNames
 from pynenc.util.sqlite_utils import create_sqlite_connection as sqlite_conn
 from pynenc.util.sqlite_utils import (
-    delete_tables_with_prefix,
+    delete_tables,
     get_sqlite_sqlite_db_path,
 )
 
@@ -736,5 +736,5 @@ class SQLiteOrchestrator(BaseOrchestrator):
         """
         Clear all orchestrator state.
         """
-        delete_tables_with_prefix(self.sqlite_db_path, self.tables.table_prefix)
+        delete_tables(self.sqlite_db_path, self.tables.all_tables())
         self._init_tables()
